@@ -380,8 +380,10 @@ Definition obj_new (cls : pyval) : res pyval :=
 (* Stores on an object that the function itself created and nobody else refers to: the updated object.
    `o.a = x` / setattr(o, a, x) on an instance of a Structure class runs Structure.__setattr__ and, for a
    field, Field.__set__ (translated in Gen/StructGuards.v, tied to the instance model in
-   Struct/StructGuardProofs.v); here only the STORE they end in is kept, which is what they do under
-   `_skip_validation` for an object that is not yet `_instantiated`. *)
+   Struct/StructGuardProofs.v: the guards that may refuse a store, or divert a None into `_none_fields`).
+   Here only the STORE they end in when they accept the value is kept -- which is what they do for the names
+   and values that are already in the __dict__ of a valid instance of the same class, stored into an object
+   that is not yet `_instantiated`. *)
 Definition inst_setattr (o : pyval) (a : pystr) (x : pyval) : res pyval :=
   match o with
   | PStruct c attrs => Ok (PStruct c (alist_set attrs a x))
